@@ -696,7 +696,91 @@ func (g *histGen) start(kind int) []string {
 
 var c03Alphabet = []int{1, 2, 3, 4, 4, 4, 5, 6, 7, 7, 7, 7, 7}
 
+// moreBuildScenarios: (a) a message re-built on its own Message from views into its own buffer, one attribute
+// dropped so that everything behind it moves left (a response crafted on the request's Message): the same bytes
+// as building from copies into a fresh Message; (b) Equal between a message of 63..300 attributes and its decode,
+// and against a copy with one attribute changed; (c) CloneTo from inside a ForEach callback (where the source's
+// attribute list is a partial view): the clone is the decode of the source's bytes
+func moreBuildScenarios(o *out, prop string, r *rng, n int) {
+	for i := 0; i < n; i++ {
+		data := r.validMessage(7, 30)
+		m := new(stun.Message)
+		if stun.Decode(data, m) != nil || len(m.Attributes) < 2 {
+			continue
+		}
+		drop := r.intn(len(m.Attributes))
+		if i%3 == 0 {
+			drop = 0
+		}
+		var own, copies []stun.Setter
+		own = append(own, stun.NewType(0x101, 2), stun.NewTransactionIDSetter(m.TransactionID))
+		copies = append(copies, stun.NewType(0x101, 2), stun.NewTransactionIDSetter(m.TransactionID))
+		for k, a := range m.Attributes {
+			if k == drop {
+				continue
+			}
+			own = append(own, stun.RawAttribute{Type: a.Type, Value: a.Value})
+			copies = append(copies, stun.RawAttribute{Type: a.Type, Value: append([]byte(nil), a.Value...)})
+		}
+		want := new(stun.Message)
+		_ = want.Build(copies...)
+		err := m.Build(own...)
+		if err != nil || !bytes.Equal(m.Raw, want.Raw) {
+			o.failFor(prop, "rebuild-from-own-values-differs", fmt.Sprintf("x decoded %s, attribute %d dropped, re-built on the same Message from views into its own buffer", fHex(data), drop))
+		}
+		o.count("rebuild-from-own-values")
+	}
+	for _, k := range []int{1, 63, 64, 65, 66, 127, 128, 129, 300} {
+		m := new(stun.Message)
+		ss := []stun.Setter{stun.BindingRequest, stun.TransactionID}
+		for j := 0; j < k; j++ {
+			t := stun.AttrType(0x8030 + j%40)
+			if j%7 == 3 {
+				t = 0x8030 // duplicates of a type, different values
+			}
+			ss = append(ss, stun.RawAttribute{Type: t, Value: []byte{byte(j), byte(j >> 8), byte(r.intn(256))}[:j%4]})
+		}
+		if m.Build(ss...) != nil {
+			continue
+		}
+		d := new(stun.Message)
+		if stun.Decode(m.Raw, d) != nil || !m.Equal(d) || !d.Equal(m) {
+			o.failFor(prop, "equal-disagrees-with-decode", fmt.Sprintf("x a message of %d attributes is not Equal to the decode of its own bytes: %s", k, fHex(m.Raw)))
+		}
+		other := append([]byte(nil), m.Raw...)
+		other[len(other)-4-pad4((k-1)%4)+1] ^= 0x40 // the type of the last attribute
+		d2 := new(stun.Message)
+		if stun.Decode(other, d2) == nil && (m.Equal(d2) || d2.Equal(m)) {
+			o.failFor(prop, "equal-accepts-a-different-message", fmt.Sprintf("x %d attributes, last attribute's type changed: %s", k, fHex(m.Raw)))
+		}
+		o.count("equal-with-many-attributes")
+	}
+	for i := 0; i < n/2; i++ {
+		data := r.validMessage(6, 20)
+		m := new(stun.Message)
+		if stun.Decode(data, m) != nil || len(m.Attributes) < 2 {
+			continue
+		}
+		ref := new(stun.Message)
+		_ = stun.Decode(data, ref)
+		visit := m.Attributes[1+r.intn(len(m.Attributes)-1)].Type
+		bad := false
+		_ = m.ForEach(visit, func(mm *stun.Message) error {
+			dst := &stun.Message{Raw: make([]byte, 0, 8)}
+			if err := mm.CloneTo(dst); err != nil || fmt.Sprint(serMsg(dst)) != fmt.Sprint(serMsg(ref)) {
+				bad = true
+			}
+			return nil
+		})
+		if bad || fmt.Sprint(serMsg(m)) != fmt.Sprint(serMsg(ref)) {
+			o.failFor(prop, "clone-inside-foreach-differs", fmt.Sprintf("x %s CloneTo from inside a ForEach(%#x) callback", fHex(data), int(visit)))
+		}
+		o.count("clone-inside-foreach")
+	}
+}
+
 func runC03(o *out, thorough bool, r *rng, _ []string) map[string]interface{} {
+	moreBuildScenarios(o, "C03", r, 400)
 	lookupCases(o, r, 600) // ForEach with a failing callback must leave struct and bytes in agreement
 	// very large values and totals: the 16-bit length fields at 2^15 and just below 2^16
 	for _, sizes := range [][]int{{32767}, {32768}, {40000}, {65528}, {65531}, {32768, 32740}, {65512 - 4}, {30000, 30000, 5500}, {65000, 520}} {
@@ -1161,6 +1245,26 @@ func runC09(o *out, thorough bool, r *rng, _ []string) map[string]interface{} {
 		emit(withBytes([]int{7, code}, r.bytes(r.intn(12))))
 		o.count("error-codes")
 	}
+	// codes far outside 0..999 (ErrorCode is an int): no default reason, whatever the code looks like modulo 256
+	for _, code := range []int{1000, 1099, 25599, 25600, 26000, 40000, 40100, 51700, 65536 + 400, 65536*7 + 420, 1<<20 + 500, 4294967296 + 420, 1<<40 + 438} {
+		emit(numsField(8, code))
+		emit(withBytes([]int{7, code}, r.bytes(r.intn(12))))
+		o.count("error-codes-out-of-range")
+	}
+	// text values whose length only looks small modulo 2^16, and values that carry the magic strings of related
+	// specifications (the RFC 8489 nonce cookie, SASLprep-sensitive code points, NUL): a text attribute is bytes
+	for kind := 0; kind < 4; kind++ {
+		for _, l := range []int{65535, 65536, 65536 + 12, 65536 + 513, 65536 + 763, 2 * 65536, 3*65536 + 763} {
+			emit(withBytes([]int{4, kind}, r.bytes(l)))
+			o.count("text-lengths-beyond-16-bits")
+		}
+		for _, v := range []string{"obMatX", "obMatXAAA", "obMatX====", "obMatXAAAA", "obMatX:1700000000", "obMatXAAAAnonce", "obMat", "OBMATX",
+			"The\u00adM\u00aatr\u2168", "a\u00a0b\u200b\ufeffc\u3000", "\x00", "user\x00name", "\xff\xfe\xfd", "realm\r\nX: y", "%s%d%v", "\"quoted\""} {
+			emit(withBytes([]int{4, kind}, []byte(v)))
+			o.count("text-magic-values")
+		}
+	}
+	emit(withBytes([]int{7, 400}, r.bytes(65536+10)))
 	// IP lengths 0..20 for every address setter
 	for l := 0; l <= 20; l++ {
 		for _, t := range xorTypes {
